@@ -679,6 +679,7 @@ func main() {
 	}
 
 	doCpu(repo, outDir)
+	doCpuCode(repo, outDir)
 	doMore(repo, outDir)
 
 	data, _ := json.MarshalIndent(out, "", " ")
